@@ -106,6 +106,27 @@ class Analyzer:
         self._cache: Dict[Tuple[int, int], Summary] = {}
         self._active: Set[int] = set()
 
+    def call_returns_array(self, module, cls, call, _depth=0) -> bool:
+        """the call certainly yields an ndarray: a view-returning numpy
+        function (asarray, reshape, transpose, einsum, ...) or a package
+        function all of whose returns are such calls"""
+        dotted = self.model.dotted(module, call.func)
+        if dotted in ALIAS_FUNCS or dotted == "numpy.einsum":
+            return True
+        if dotted is not None and dotted.startswith("numpy"):
+            return False
+        if _depth >= 3:
+            return False
+        callee = self.resolve_callee(module, cls, call)
+        if callee is None:
+            return False
+        rets = [n for n in _walk_local(callee.node)
+                if isinstance(n, ast.Return)]
+        return bool(rets) and all(
+            isinstance(r.value, ast.Call) and self.call_returns_array(
+                callee.module, callee.cls, r.value, _depth + 1)
+            for r in rets)
+
     # ------------------------------------------------------------------
     def summarize(self, fn: FuncInfo, depth: int = 0) -> Summary:
         key = (id(fn.node), min(depth, self.max_depth))
@@ -405,6 +426,16 @@ class _FunctionPass:
                             for t in par.targets:
                                 if isinstance(t, ast.Name):
                                     ev.add(t.id)
+            # results of view-returning numpy calls, and of package
+            # functions all of whose returns are such calls
+            for n in _walk_local(self.node):
+                if isinstance(n, ast.Assign) and isinstance(n.value,
+                                                            ast.Call):
+                    if self.an.call_returns_array(self.module, self.cls,
+                                                  n.value):
+                        for t in n.targets:
+                            if isinstance(t, ast.Name):
+                                ev.add(t.id)
             a = self.node.args
             for x in a.posonlyargs + a.args + a.kwonlyargs:
                 if x.annotation is not None and "ndarray" in src(
@@ -528,6 +559,25 @@ class _FunctionPass:
                         f"{dotted} writes its first argument")
         if dotted in ALIAS_FUNCS and call.args:
             return arg_roots[0]
+        if dotted == "numpy.einsum" and len(call.args) == 2 and \
+                not any(k.arg == "out" for k in call.keywords):
+            # one operand: einsum returns a *view* whenever the subscripts
+            # only permute axes / take diagonals; it computes a new array
+            # only if an index is summed away
+            spec = call.args[0]
+            summed = None
+            if isinstance(spec, ast.Constant) and isinstance(spec.value,
+                                                             str):
+                sp = spec.value.replace(" ", "")
+                if "->" in sp:
+                    i_, o_ = sp.split("->")
+                    summed = bool(set(i_.replace(".", "")) -
+                                  set(o_.replace(".", "")))
+                else:
+                    letters = sp.replace(".", "")
+                    summed = len(set(letters)) != len(letters)
+            if summed is not True:
+                return arg_roots[1]
         if dotted in ("copy.copy",) and call.args:
             return FRESH
         # method call on an object
